@@ -10,6 +10,7 @@ package main
 
 import (
 	"bufio"
+	"bytes"
 	"context"
 	"encoding/hex"
 	"encoding/json"
@@ -264,9 +265,10 @@ func init() {
 				continue
 			}
 			var in struct {
-				Hex   string `json:"hex"`
-				Tbl   bool   `json:"tbl"`
-				Parse bool   `json:"parse"`
+				Hex    string `json:"hex"`
+				Repeat int    `json:"repeat"` // the bytes of hex repeated this many times (oversized inputs without shipping them)
+				Tbl    bool   `json:"tbl"`
+				Parse  bool   `json:"parse"`
 			}
 			if err := json.Unmarshal(line, &in); err != nil {
 				enc.Encode(map[string]string{"harness_error": err.Error()})
@@ -276,6 +278,9 @@ func init() {
 			if err != nil {
 				enc.Encode(map[string]string{"harness_error": err.Error()})
 				continue
+			}
+			if in.Repeat > 1 {
+				b = bytes.Repeat(b, in.Repeat)
 			}
 			enc.Encode(locOne(b, in.Tbl, in.Parse))
 		}
